@@ -1461,6 +1461,9 @@ MODELS = {
     'core::ops::DerefMut::deref_mut': _deref_container,
     'core::ops::RangeInclusive::into_inner': _into_inner,
     'approx::AbsDiffEq::abs_diff_eq': _approx('abs_diff_eq'),
+    'approx::AbsDiffEq::abs_diff_ne': _approx('abs_diff_ne'),
+    'approx::RelativeEq::relative_ne': _approx('relative_ne'),
+    'approx::UlpsEq::ulps_ne': _approx('ulps_ne'),
     'approx::RelativeEq::relative_eq': _approx('relative_eq'),
     'approx::UlpsEq::ulps_eq': _approx('ulps_eq'),
     'approx::AbsDiffEq::default_epsilon': _approx_default('default_epsilon'),
